@@ -15,10 +15,10 @@ func init() {
 		DesignRef: "DESIGN.md §5 C12",
 		Level: "Decides that on the read path a histogram's counter-reset hint is only ever produced by counterResetHint(header, numRead) in the chunk iterators, that this function answers 'not a reset' only for the second and later samples read from a non-gauge chunk, " +
 			"that the vertical merge iterator records a sample as consecutive only if its source iterator did not change since the previous sample (every replacement of the current iterator is followed by the 'changed' mark before the flag is stored; Seek clears the flag before it repositions), " +
-			"and that both histogram accessors of the merge iterator downgrade a non-gauge hint to 'unknown' whenever the flag is clear.",
+			"that both histogram accessors of the merge iterator downgrade a non-gauge hint to 'unknown' whenever the flag is clear, and that the tombstone/trim wrapper DeletedIterator does the same for a sample reached by skipping deleted ones (finding F11).",
 		Note:     "Trusted: go/packages, go/types, go/cfg; rule tables in checker/c12.go.",
-		Covers:   "chunkenc.counterResetHint and its callers; writers of Histogram.CounterResetHint / FloatHistogram.CounterResetHint in storage and tsdb (non-test); chainSampleIterator.Next/Seek/AtHistogram/AtFloatHistogram.",
-		NotCover: "that the appenders cut a new chunk on every decrease or layout change (value-level), sample-skipping wrappers below the merge iterator (tombstone / range trimming: see DESIGN §4 F11), PromQL's use of the hint.",
+		Covers:   "chunkenc.counterResetHint and its callers; writers of Histogram.CounterResetHint / FloatHistogram.CounterResetHint in storage and tsdb (non-test); chainSampleIterator.Next/Seek/AtHistogram/AtFloatHistogram; DeletedIterator.Next/Seek/AtHistogram/AtFloatHistogram.",
+		NotCover: "that the appenders cut a new chunk on every decrease or layout change (value-level), PromQL's use of the hint.",
 		Run:      runC12,
 		MinObligations: 18,
 	})
@@ -55,8 +55,8 @@ func runC12(c *eng.Ctx) {
 					txt = "sel"
 				}
 				ok = txt == "sel" || strings.HasPrefix(txt, "counterResetHint(")
-			case "storage:chainSampleIterator.AtHistogram", "storage:chainSampleIterator.AtFloatHistogram":
-				ok = true // checked below
+			case "storage:chainSampleIterator.AtHistogram", "storage:chainSampleIterator.AtFloatHistogram", "tsdb:DeletedIterator.AtHistogram", "tsdb:DeletedIterator.AtFloatHistogram":
+				ok = true // downgrade sites, checked below (R1, R4)
 			case "tsdb:headAppender.AppendHistogramSTZeroSample", "tsdb:headAppenderV2.Append", "tsdb:headAppenderV2.bestEffortAppendSTZeroSample", "tsdb:headAppender.AppendHistogramCTZeroSample":
 				ok = true // write path: synthetic zero sample, explicitly a reset
 			case "tsdb/record:DecodeHistogram", "tsdb/record:DecodeFloatHistogram":
@@ -121,6 +121,58 @@ func runC12(c *eng.Ctx) {
 		}, "answers UnknownCounterReset", func(n ast.Node) bool {
 			return strings.Contains(nodeText(&ast.BlockStmt{List: n.(*ast.CaseClause).Body}), "return histogram.UnknownCounterReset")
 		}, 1)
+	}
+	// ---- R4 the sample-skipping wrapper below the merge iterator (finding F11) ----
+	// DeletedIterator hides samples covered by tombstones (and by range trimming); the hint of the
+	// sample after a hidden one refers to a sample the caller never saw.  Sibling of the merge
+	// iterator's rule: both histogram accessors downgrade a non-gauge hint under a flag that Next
+	// sets in the arm where it skips a sample and clears on entry.
+	{
+		D := "tsdb:DeletedIterator"
+		down := eng.Node("hint = UnknownCounterReset", func(g *eng.Graph, n ast.Node) bool {
+			as, ok := n.(*ast.AssignStmt)
+			return ok && len(as.Lhs) == 1 && strings.HasSuffix(eng.ExprString(as.Lhs[0]), ".CounterResetHint") && eng.ExprString(as.Rhs[0]) == "histogram.UnknownCounterReset"
+		})
+		flag := ""
+		for _, m := range []string{"AtHistogram", "AtFloatHistogram"} {
+			a := c.Fn(D + "." + m)
+			if len(a.Find(down)) == 0 {
+				c.Fail("R4", D+"."+m, "a sample reached by skipping deleted samples does not keep the wrapped iterator's hint (downgrade to unknown under a skip flag)", p.Pos(a.Body.Pos()),
+					"DeletedIterator."+m+" passes the wrapped chunk iterator's hint through unchanged: after a tombstone removed the first sample of a chunk that started with a counter reset, the next sample is returned as NotCounterReset although it is lower than its predecessor in the result (triage/f11_test.go)")
+				continue
+			}
+			c.Pass("R4", D+"."+m, "a sample reached by skipping deleted samples does not keep the wrapped iterator's hint (downgrade to unknown under a skip flag)", "downgrade present")
+			// the guarding flag: a bool field of the iterator read in the controlling condition
+			for _, cond := range a.CondExprs() {
+				ast.Inspect(cond, func(x ast.Node) bool {
+					if se, ok := x.(*ast.SelectorExpr); ok && eng.ExprString(se.X) == "it" {
+						flag = se.Sel.Name
+					}
+					return true
+				})
+			}
+			a.Only("R4", down, "is guarded by the skip flag and the hint not being a gauge's", func(l eng.Loc) bool {
+				return flag != "" && a.UnderCond(l, "it."+flag, ".CounterResetHint != histogram.GaugeType")
+			})
+		}
+		if flag != "" {
+			nx := c.Fn(D + ".Next")
+			set := p.StoreVal(D+"."+flag, "true", eng.IsIdent("true"))
+			clr := p.StoreVal(D+"."+flag, "false", eng.IsIdent("false"))
+			nx.Has("R4", set, 1)
+			nx.Only("R4", set, "lies in the arm that skips a deleted sample", func(l eng.Loc) bool { return nx.UnderCond(l, "tr.InBounds(ts)") })
+			nx.Dom("R4", clr, eng.OnVar("it", "AtT"))
+			// every skipping arm sets it: the InBounds arm's only way out passes the store
+			nx.AstEvery("R4", "arm skipping a deleted sample", func(n ast.Node) bool {
+				is, ok := n.(*ast.IfStmt)
+				return ok && strings.Contains(eng.ExprString(is.Cond), "InBounds(")
+			}, "sets the skip flag before continuing", func(n ast.Node) bool {
+				t := nodeText(n.(*ast.IfStmt).Body)
+				return strings.Contains(t, "it."+flag+" = true") && strings.Contains(t, "continue")
+			}, 1)
+			c.Fn(D+".Seek").Dom("R4", clr, eng.CallNamed("Seek"))
+			c.WritersSubset("R4", D+"."+flag, 3, D+".Next", D+".Seek")
+		}
 	}
 	// ---- R1 the merge iterator ----
 	{
